@@ -3,14 +3,37 @@ public Python API of the package assembled from /repo's working tree and prints 
 canonical observation per comparison op.
 
 Floats are printed exactly, as `<odd mantissa>p<binary exponent>` (the text `F64.toStr`
-produces on the Lean side); nothing is rounded or formatted through repr()."""
+produces on the Lean side); nothing is rounded or formatted through repr().
+
+Periphery (the model sees none of this; a per-case counter, reset at `#`, drives it):
+* ROUTES  - every modelled comparison is issued through alternating spellings that end in the
+  same native call: positional / keyword / defaulted arguments, MinHash-level vs
+  SourmashSignature-level wrapper, `jaccard()` vs `similarity(ignore_abundance=True)`,
+  mutable / frozen / pickled / copied operands;
+* VIEWS   - what can be read through two routes must agree: len() vs .hashes vs get_mins(),
+  intersection_and_union_size vs count_common vs len(a & b) / len(a | b), is_compatible in both
+  directions, the comparison dataclass' properties vs the MinHash-level values on its
+  `mh1_cmp` / `mh2_cmp`, cosine_similarity vs angular_similarity;
+* HISTORY - every read-only call is made twice and must answer the same; the operands must be
+  unchanged afterwards; every comparison object a call returned is kept until the end of the
+  case and its properties are re-read after later calls.
+A disagreement is printed in place of the observation (`view-mismatch ..`, `unstable ..`,
+`operand-changed ..`, `history-mismatch ..`), which the model never prints."""
 import math
+import pickle
 import sys
 
 from sourmash import MinHash, SourmashSignature
+from sourmash._lowlevel import lib
 from sourmash.sketchcomparison import FracMinHashComparison, NumMinHashComparison
 
 from mh_impl import show, exc_name
+
+NROUTE = [0]
+
+
+class Mismatch(Exception):
+    pass
 
 
 def fcanon(x):
@@ -35,14 +58,39 @@ def fcanon(x):
     return f"{n}p-{d.bit_length() - 1}"
 
 
-def fld(f):
+def outcome(f):
+    """('ok', value) | ('err', class name)"""
     try:
-        v = f()
+        return ("ok", f())
+    except Mismatch:
+        raise
     except BaseException as e:      # noqa: BLE001
-        return "E." + exc_name(e)
-    if isinstance(v, float):
-        return fcanon(v)
-    return str(v)
+        return ("err", exc_name(e))
+
+
+def twice(f, what):
+    """read-only entry points are called twice; both calls must answer the same"""
+    r1 = outcome(f)
+    r2 = outcome(f)
+    if r1 != r2 and not (r1[0] == r2[0] == "ok" and r1[1] != r1[1] and r2[1] != r2[1]):
+        raise Mismatch(f"unstable {what}: {r1} then {r2}")
+    return r1
+
+
+def txt(r):
+    if r[0] == "err":
+        return "E." + r[1]
+    v = r[1]
+    return fcanon(v) if isinstance(v, float) else str(v)
+
+
+def line_of(r):
+    if r[0] == "err":
+        return "err " + r[1]
+    v = r[1]
+    if isinstance(v, tuple):
+        return "ok " + " ".join(str(x) for x in v)
+    return "ok " + (fcanon(v) if isinstance(v, float) else str(v))
 
 
 def mk(num, scaled, track, ksize, seed, hf):
@@ -56,8 +104,180 @@ def mk(num, scaled, track, ksize, seed, hf):
     return MinHash(num, ksize, track_abundance=bool(track), seed=seed, scaled=scaled, **kw)
 
 
+def digest(mh):
+    hs = mh.hashes
+    return (mh.num, mh._max_hash, mh.ksize, mh.seed, mh.moltype, mh.track_abundance, tuple(hs.items()))
+
+
+def views(mh):
+    """the Python-side views of one sketch agree"""
+    if len(mh) > 400:
+        return
+    hs = mh.hashes
+    keys = list(hs.keys())
+    if not (len(mh) == len(hs) == len(keys) == len(mh.get_mins())):
+        raise Mismatch(f"view-mismatch len {len(mh)} {len(hs)} {len(mh.get_mins())}")
+    if list(mh.get_mins()) != keys:
+        raise Mismatch("view-mismatch get_mins vs hashes")
+    if mh.track_abundance:
+        if mh.get_mins(with_abundance=True) != dict(hs):
+            raise Mismatch("view-mismatch get_mins(with_abundance) vs hashes")
+
+
+def operand(mh, r):
+    """the same sketch through different object routes"""
+    k = r % 5
+    if k == 1:
+        return mh.to_frozen()
+    if k == 2:
+        return pickle.loads(pickle.dumps(mh))
+    if k == 3:
+        return mh.copy()
+    if k == 4:
+        return mh.to_frozen().to_mutable()
+    return mh
+
+
+def frac_fields(c):
+    return (f"cs={c.cmp_scaled} n1={len(c.mh1_cmp)} n2={len(c.mh2_cmp)}"
+            f" j={txt(outcome(lambda: c.jaccard))} an={txt(outcome(lambda: c.angular_similarity))}"
+            f" c12={txt(outcome(lambda: c.mh1_containment_in_mh2))} c21={txt(outcome(lambda: c.mh2_containment_in_mh1))}"
+            f" mx={txt(outcome(lambda: c.max_containment))} av={txt(outcome(lambda: c.avg_containment))}"
+            f" ti={txt(outcome(lambda: c.total_unique_intersect_hashes))}")
+
+
+def num_fields(c):
+    return (f"cn={c.cmp_num} n1={len(c.mh1_cmp)} n2={len(c.mh2_cmp)}"
+            f" j={txt(outcome(lambda: c.jaccard))} an={txt(outcome(lambda: c.angular_similarity))}")
+
+
+def dataclass_views(c, frac):
+    """the dataclass' properties EQUAL the MinHash-level values on the sketches it compares"""
+    x, y = c.mh1_cmp, c.mh2_cmp
+    pairs = [("jaccard", lambda: c.jaccard, lambda: x.jaccard(y)),
+             ("angular", lambda: c.angular_similarity, lambda: x.angular_similarity(y)),
+             ("cosine", lambda: c.cosine_similarity, lambda: c.angular_similarity)]
+    if frac:
+        pairs += [("c12", lambda: c.mh1_containment_in_mh2, lambda: x.contained_by(y)),
+                  ("c21", lambda: c.mh2_containment_in_mh1, lambda: y.contained_by(x)),
+                  ("max", lambda: c.max_containment, lambda: x.max_containment(y)),
+                  ("avg", lambda: c.avg_containment, lambda: x.avg_containment(y)),
+                  ("isect", lambda: len(c.intersect_mh), lambda: x.count_common(y)),
+                  ("tuih", lambda: c.total_unique_intersect_hashes, lambda: x.count_common(y) * c.cmp_scaled),
+                  ("pass", lambda: c.pass_threshold, lambda: x.count_common(y) * c.cmp_scaled >= c.threshold_bp)]
+    for name, f, g in pairs:
+        a, b = outcome(f), outcome(g)
+        if a != b and not (a[0] == b[0] == "ok" and a[1] != a[1] and b[1] != b[1]):
+            raise Mismatch(f"view-mismatch dataclass {name}: {a} vs {b}")
+    if frac and c.ignore_abundance and (x.track_abundance or y.track_abundance):
+        raise Mismatch("view-mismatch dataclass ignore_abundance kept abundances")
+    if frac and (x.scaled != c.cmp_scaled or y.scaled != c.cmp_scaled):
+        raise Mismatch(f"view-mismatch dataclass scaled {x.scaled} {y.scaled} vs cmp_scaled {c.cmp_scaled}")
+    if not frac and (x.num != c.cmp_num or y.num != c.cmp_num):
+        raise Mismatch(f"view-mismatch dataclass num {x.num} {y.num} vs cmp_num {c.cmp_num}")
+
+
+def compare(op, a, x, y, r):
+    """one modelled comparison through the route chosen by the counter; returns an outcome"""
+    k = r % 4
+    # signature-level operands: a fresh signature, a frozen copy of it, or a pickled one
+    def sx(m):
+        g = SourmashSignature(m)
+        if r % 3 == 1:
+            return g.to_frozen()
+        if r % 3 == 2:
+            return pickle.loads(pickle.dumps(g))
+        return g
+    if op == "cc":
+        ds = bool(int(a[2]))
+        if k == 0:
+            return twice(lambda: x.count_common(y, ds), op)
+        if k == 1:
+            return twice(lambda: x.count_common(y, downsample=ds), op)
+        if k == 2 and not ds:
+            return twice(lambda: x.count_common(y), op)
+        if k == 2:
+            # the FFI entry point itself (flag plumbing)
+            return twice(lambda: x._methodcall(lib.kmerminhash_count_common, y._get_objptr(), ds), op)
+        return twice(lambda: x.count_common(other=y, downsample=ds), op)
+    if op == "iu":
+        return twice(lambda: tuple(x.intersection_and_union_size(y)), op)
+    if op == "jac":
+        ds = bool(int(a[2]))
+        if k == 1:
+            return twice(lambda: x.jaccard(y, ds), op)
+        if k == 2 and x.num == y.num:
+            return twice(lambda: x.similarity(y, ignore_abundance=True, downsample=ds), op)
+        if k == 3 and x.num == y.num and not ds:
+            return twice(lambda: sx(x).jaccard(sx(y)), op)
+        return twice(lambda: x.jaccard(y, downsample=ds), op)
+    if op in ("sim", "ssim"):
+        ia, ds = bool(int(a[2])), bool(int(a[3]))
+        if op == "ssim":
+            if k % 2:
+                return twice(lambda: sx(x).similarity(sx(y), ia, ds), op)
+            return twice(lambda: sx(x).similarity(sx(y), ignore_abundance=ia, downsample=ds), op)
+        if k == 0:
+            return twice(lambda: x.similarity(y, ia, ds), op)
+        if k == 1:
+            return twice(lambda: x.similarity(y, downsample=ds, ignore_abundance=ia), op)
+        if k == 2 and not ds:
+            return twice(lambda: x.similarity(y, ia) if ia else x.similarity(y), op)
+        if k == 2:
+            return twice(lambda: x._methodcall(lib.kmerminhash_similarity, y._get_objptr(), ia, ds), op)
+        return twice(lambda: x.similarity(y, ignore_abundance=ia, downsample=ds), op)
+    if op == "sjac":
+        if k == 2:
+            # `kmerminhash_jaccard` is exported but not used by the Python layer: same quantity
+            return twice(lambda: x._methodcall(lib.kmerminhash_jaccard, y._get_objptr()), op)
+        return twice(lambda: sx(x).jaccard(sx(y)), op)
+    if op == "ang":
+        if k == 2 and x.track_abundance and y.track_abundance:
+            return twice(lambda: x._methodcall(lib.kmerminhash_angular_similarity, y._get_objptr()), op)
+        if k == 3 and x.track_abundance and y.track_abundance:
+            return twice(lambda: x.similarity(y), op)           # both carry abundances: similarity IS the angular one
+        return twice(lambda: x.angular_similarity(y), op)
+    if op in ("cb", "scb", "mc", "smc", "ac", "sac"):
+        ds = bool(int(a[2]))
+        sig = op[0] == "s" or k == 3
+        name = {"cb": "contained_by", "scb": "contained_by", "mc": "max_containment", "smc": "max_containment",
+                "ac": "avg_containment", "sac": "avg_containment"}[op]
+        if sig:
+            f = getattr(sx(x), name)
+            o = sx(y)
+            if k % 2:
+                return twice(lambda: f(o, ds), op)
+            return twice(lambda: f(o, downsample=ds), op)
+        f = getattr(x, name)
+        if name == "avg_containment" or k == 1:          # MinHash.avg_containment: keyword-only
+            return twice(lambda: f(y, downsample=ds), op)
+        if k == 2 and not ds:
+            return twice(lambda: f(y), op)
+        return twice(lambda: f(y, ds), op)
+    raise KeyError(op)
+
+
+def cross_views(op, a, x, y, res):
+    """agreement between entry points that must report the same quantity"""
+    if op == "iu" and res[0] == "ok":
+        c, u = res[1]
+        if x.num == 0 and y.num == 0:
+            cc = outcome(lambda: x.count_common(y))
+            if cc != ("ok", c):
+                raise Mismatch(f"view-mismatch iu common {c} vs count_common {cc}")
+        if not x.track_abundance and not y.track_abundance and x.num == y.num and len(x) + len(y) <= 400:
+            i = outcome(lambda: len(x & y))
+            un = outcome(lambda: len(x | y))
+            if i != ("ok", c) or un != ("ok", u):
+                raise Mismatch(f"view-mismatch iu {(c, u)} vs len(a&b)={i} len(a|b)={un}")
+    if op == "compat":
+        if bool(x.is_compatible(y)) != bool(y.is_compatible(x)):
+            raise Mismatch("view-mismatch is_compatible asymmetric")
+
+
 def main():
     T = {}
+    KEPT = []        # (kind, object, fields text at creation)
     out = sys.stdout
     for line in sys.stdin:
         w = line.split()
@@ -68,6 +288,8 @@ def main():
         try:
             if op == "#":
                 T = {}
+                KEPT = []
+                NROUTE[0] = 0
                 out.write("#\n")
                 continue
             a = w[1:]
@@ -127,60 +349,80 @@ def main():
                     res = "bad-op"
                 else:
                     res = "ok " + fcanon(min(pp / (math.sqrt(aa) * math.sqrt(bb)), 1.0))
-            elif op == "compat":
-                x, y = T[int(a[0])], T[int(a[1])]
-                res = f"ok {int(bool(x.is_compatible(y)))}"
-            elif op == "cc":
-                x, y = T[int(a[0])], T[int(a[1])]
-                res = f"ok {x.count_common(y, bool(int(a[2])))}"
-            elif op == "iu":
-                x, y = T[int(a[0])], T[int(a[1])]
-                c, u = x.intersection_and_union_size(y)
-                res = f"ok {c} {u}"
-            elif op == "jac":
-                x, y = T[int(a[0])], T[int(a[1])]
-                res = "ok " + fcanon(x.jaccard(y, downsample=bool(int(a[2]))))
-            elif op == "sim":
-                x, y = T[int(a[0])], T[int(a[1])]
-                res = "ok " + fcanon(x.similarity(y, ignore_abundance=bool(int(a[2])), downsample=bool(int(a[3]))))
-            elif op == "ssim":
-                x, y = SourmashSignature(T[int(a[0])]), SourmashSignature(T[int(a[1])])
-                res = "ok " + fcanon(x.similarity(y, ignore_abundance=bool(int(a[2])), downsample=bool(int(a[3]))))
-            elif op == "sjac":
-                x, y = SourmashSignature(T[int(a[0])]), SourmashSignature(T[int(a[1])])
-                res = "ok " + fcanon(x.jaccard(y))
-            elif op == "ang":
-                x, y = T[int(a[0])], T[int(a[1])]
-                res = "ok " + fcanon(x.angular_similarity(y))
-            elif op == "cb":
-                x, y = T[int(a[0])], T[int(a[1])]
-                res = "ok " + fcanon(x.contained_by(y, downsample=bool(int(a[2]))))
-            elif op == "scb":
-                x, y = SourmashSignature(T[int(a[0])]), SourmashSignature(T[int(a[1])])
-                res = "ok " + fcanon(x.contained_by(y, downsample=bool(int(a[2]))))
-            elif op == "mc":
-                x, y = T[int(a[0])], T[int(a[1])]
-                res = "ok " + fcanon(x.max_containment(y, downsample=bool(int(a[2]))))
-            elif op == "ac":
-                x, y = T[int(a[0])], T[int(a[1])]
-                res = "ok " + fcanon(x.avg_containment(y, downsample=bool(int(a[2]))))
-            elif op == "frac":
-                x, y, cs, ia = T[int(a[0])], T[int(a[1])], int(a[2]), bool(int(a[3]))
-                c = FracMinHashComparison(x, y, cmp_scaled=(cs or None), ignore_abundance=ia)
-                res = (f"ok cs={c.cmp_scaled} n1={len(c.mh1_cmp)} n2={len(c.mh2_cmp)}"
-                       f" j={fld(lambda: c.jaccard)} an={fld(lambda: c.angular_similarity)}"
-                       f" c12={fld(lambda: c.mh1_containment_in_mh2)} c21={fld(lambda: c.mh2_containment_in_mh1)}"
-                       f" mx={fld(lambda: c.max_containment)} av={fld(lambda: c.avg_containment)}"
-                       f" ti={fld(lambda: c.total_unique_intersect_hashes)}")
-            elif op == "numc":
-                x, y, cn, ia = T[int(a[0])], T[int(a[1])], int(a[2]), bool(int(a[3]))
-                c = NumMinHashComparison(x, y, cmp_num=(cn or None), ignore_abundance=ia)
-                res = (f"ok cn={c.cmp_num} n1={len(c.mh1_cmp)} n2={len(c.mh2_cmp)}"
-                       f" j={fld(lambda: c.jaccard)} an={fld(lambda: c.angular_similarity)}")
             else:
-                res = "bad-op"
+                # ---- read-only comparison ops: routes, views, histories -----------------------------
+                NROUTE[0] += 1
+                r = NROUTE[0]
+                # earlier results are re-read after later calls
+                for kind, c, was in KEPT:
+                    now = frac_fields(c) if kind == "frac" else num_fields(c)
+                    if now != was:
+                        raise Mismatch(f"history-mismatch {kind}: was `{was}` now `{now}`")
+                ha, hb = int(a[0]), int(a[1])
+                A0, B0 = T[ha], T[hb]
+                before = (digest(A0), digest(B0))
+                views(A0)
+                views(B0)
+                # operands through alternating object routes (the same handle twice stays the same object)
+                x = operand(A0, r)
+                y = x if ha == hb else operand(B0, r // 5)
+                if op == "compat":
+                    rr = twice(lambda: int(bool(x.is_compatible(y))), op)
+                    cross_views(op, a, x, y, rr)
+                    res = line_of(rr)
+                elif op in ("cc", "iu", "jac", "sim", "ssim", "sjac", "ang", "cb", "scb", "mc", "smc", "ac", "sac"):
+                    # symmetric ops: the partner order is evaluated first on odd turns (order of calls must not matter)
+                    if r % 2 and op in ("cc", "iu", "sim", "mc"):
+                        outcome(lambda: compare(op, a, y, x, r))
+                    rr = compare(op, a, x, y, r)
+                    cross_views(op, a, x, y, rr)
+                    res = line_of(rr)
+                elif op in ("frac", "@frac"):
+                    cs, ia = int(a[2]), bool(int(a[3]))
+                    kw = {}
+                    if cs or r % 2:
+                        kw["cmp_scaled"] = cs or None
+                    if ia or r % 3 == 0:
+                        kw["ignore_abundance"] = ia
+                    if op == "@frac":
+                        kw["threshold_bp"] = int(a[4])
+                    c = FracMinHashComparison(x, y, **kw)
+                    dataclass_views(c, True)
+                    fields = frac_fields(c)
+                    if fields != frac_fields(c):
+                        raise Mismatch("unstable frac properties")
+                    KEPT.append(("frac", c, fields))
+                    if op == "frac":
+                        res = "ok " + fields
+                    else:
+                        # implementation-only observations (the model answers `skip`): intersect_mh, weighted_intersection
+                        # (abundances from the ORIGINAL mh1), pass_threshold
+                        im = c.intersect_mh
+                        wi = c.weighted_intersection(from_mh=A0)
+                        res = (f"ok cs={c.cmp_scaled} pt={int(bool(c.pass_threshold))} im={','.join(map(str, im.hashes))}"
+                               f" imtr={int(im.track_abundance)} wi={','.join(f'{h}:{v}' for h, v in wi.hashes.items())}"
+                               f" witr={int(wi.track_abundance)}")
+                elif op == "numc":
+                    cn, ia = int(a[2]), bool(int(a[3]))
+                    kw = {}
+                    if cn or r % 2:
+                        kw["cmp_num"] = cn or None
+                    if ia or r % 3 == 0:
+                        kw["ignore_abundance"] = ia
+                    c = NumMinHashComparison(x, y, **kw)
+                    dataclass_views(c, False)
+                    fields = num_fields(c)
+                    KEPT.append(("num", c, fields))
+                    res = "ok " + fields
+                else:
+                    res = "bad-op"
+                if res != "bad-op":
+                    if (digest(A0), digest(B0)) != before:
+                        raise Mismatch(f"operand-changed by {op}")
         except KeyError:
             res = "bad-op"
+        except Mismatch as e:
+            res = str(e)
         except BaseException as e:          # noqa: BLE001
             res = "err " + exc_name(e)
         out.write(res + "\n")
